@@ -128,7 +128,7 @@ func (c *Chan[T]) simRecvBegin() bool {
 	}
 	for c.count == 0 && !c.closed {
 		c.recvW++
-		s.wakeBlockedOn("chan.recv-waiting") // a parked select with a send clause on this channel may now proceed
+		s.wakeParkedSelects() // a parked select with a send clause on this channel may now proceed
 		chanPark("chan receive", c)
 		c.recvW--
 	}
